@@ -30,13 +30,24 @@ func execHeap(in val.V) val.V {
 		fam := []*sse.Message{{}}
 		ids := map[uintptr]int{}
 		fin, _ := sse.NewFiniteReplayer(2, true) // the smallest ring: it wraps at every other Put
-		vr, _ := sse.NewValidReplayer(time.Hour, true)
+		var clock time.Duration
+		start := time.Now()
+		now := func() time.Time { return start.Add(clock) }
+		vr, _ := sse.NewValidReplayer(1000*time.Second, true)
+		vr.Now = now
 		finManual, _ := sse.NewFiniteReplayer(4, false)
-		vrManual, _ := sse.NewValidReplayer(time.Hour, false)
+		vrManual, _ := sse.NewValidReplayer(1000*time.Second, false)
+		vrManual.Now = now
 		outs := []val.V{}
 		for _, op := range in.Items() {
 			t := op.At(1).Int()
-			if t < len(fam) {
+			if op.At(0).Num() == 9 {
+				// the ValidReplayers' clock advances and they collect: stored copies may expire, which concerns no message
+				// of the family (the publisher's own messages and earlier publications must read as before)
+				clock += time.Duration(op.At(1).Int()) * time.Second
+				vr.GC()
+				vrManual.GC()
+			} else if t < len(fam) {
 				m := fam[t]
 				switch op.At(0).Num() {
 				case 0:
@@ -176,6 +187,22 @@ func genHeap(c *Ctx) {
 			c.Emit(withHints(ops))
 		}
 	}
+	// exhaustive: one message published k times through the ValidReplayers, everything expires and is collected, then again
+	for kind := 1; kind < 4; kind += 2 {
+		for k := 1; k <= 5; k++ {
+			ops := []val.V{app(0, 0), app(0, 1), app(0, 2)}
+			if kind == 3 {
+				ops = append(ops, val.L(val.N(1), val.N(0), val.L(val.S("man"))))
+			}
+			for i := 0; i < k; i++ {
+				ops = append(ops, val.L(val.N(6), val.N(0), val.Int(kind)))
+			}
+			ops = append(ops, val.L(val.N(9), val.N(600)), val.L(val.N(6), val.N(0), val.Int(kind)), val.L(val.N(9), val.N(600)),
+				val.L(val.N(6), val.N(0), val.Int(kind)), val.L(val.N(9), val.N(1100)), val.L(val.N(6), val.N(0), val.Int(kind)), app(0, 3))
+			c.Count("exhaustive-publish-expire-republish")
+			c.Emit(withHints(ops))
+		}
+	}
 	// exhaustive: UnmarshalText into a message that has clones / stored copies, at every template size
 	for k := 1; k <= 6; k++ {
 		for target := 0; target < 3; target++ {
@@ -243,10 +270,13 @@ func genHeap(c *Ctx) {
 			case x < 86:
 				ops = append(ops, val.L(val.N(7), val.Int(t), line(c.R.Intn(26)), val.N(0)))
 				c.Count("op:unmarshal")
-			default:
+			case x < 95:
 				// the family grows only if the Put is accepted (the target has no ID): keep targets conservative
 				ops = append(ops, val.L(val.N(6), val.Int(t), val.Int(c.R.Intn(4))))
-				c.Count("op:put-auto")
+				c.Count("op:put")
+			default:
+				ops = append(ops, val.L(val.N(9), val.Int([]int{300, 600, 1100}[c.R.Intn(3)])))
+				c.Count("op:clock-advance-and-collect")
 			}
 		}
 		c.Emit(withHints(ops))
